@@ -86,6 +86,12 @@ let rec sub n m =
 
 module Nat =
  struct
+  (** val pred : nat -> nat **)
+
+  let pred n = match n with
+  | O -> n
+  | S u -> u
+
   (** val sub : nat -> nat -> nat **)
 
   let rec sub n m =
@@ -10314,6 +10320,26 @@ let submitted qs =
 let stored_after n es0 qs =
   strip_empty (last_n n (app es0 (submitted qs)))
 
+type nav_op =
+| NEdit of str
+| NPrev
+| NNext
+
+type nav = { nv_text : (nat -> str); nv_cur : nat; nv_last : nat }
+
+(** val nav_step : nav -> nav_op -> nav **)
+
+let nav_step n = function
+| NEdit s ->
+  { nv_text = (fun i -> if Nat.eqb i n.nv_cur then s else n.nv_text i);
+    nv_cur = n.nv_cur; nv_last = n.nv_last }
+| NPrev ->
+  { nv_text = n.nv_text; nv_cur = (Nat.pred n.nv_cur); nv_last = n.nv_last }
+| NNext ->
+  { nv_text = n.nv_text; nv_cur =
+    (if Nat.ltb n.nv_cur n.nv_last then S n.nv_cur else n.nv_cur); nv_last =
+    n.nv_last }
+
 type hist = { h_lines : str list; h_modified : (nat * str) list; h_max : 
               nat; h_cursor : nat }
 
@@ -10501,6 +10527,27 @@ let d_spec_stored max0 file qs =
                                  | Some d -> d
                                  | None -> [])) qs)
 
+(** val spec_nav_run : nav -> sop list -> str list **)
+
+let rec spec_nav_run n = function
+| [] -> []
+| o :: r ->
+  let n' =
+    nav_step n (match o with
+                | Edit s -> NEdit s
+                | Prev -> NPrev
+                | Next -> NNext)
+  in
+  (match o with
+   | Edit _ -> spec_nav_run n' r
+   | _ -> (n'.nv_text n'.nv_cur) :: (spec_nav_run n' r))
+
+(** val spec_nav : str list -> sop list -> str list **)
+
+let spec_nav es ops =
+  spec_nav_run { nv_text = (fun i -> nth i es []); nv_cur = (length es);
+    nv_last = (length es) } ops
+
 (** val dispatch_history : z -> val0 -> val0 option **)
 
 let dispatch_history op a =
@@ -10515,7 +10562,13 @@ let dispatch_history op a =
        else if Z.eqb op (Zpos (XI (XI (XO (XI (XO (XO (XO (XO (XI (XI
                  XH)))))))))))
             then Some (vstrs (entries (as_str a)))
-            else None
+            else if Z.eqb op (Zpos (XO (XO (XI (XI (XO (XO (XO (XO (XI (XI
+                      XH)))))))))))
+                 then Some
+                        (vstrs
+                          (spec_nav (as_strs (arg a O))
+                            (map as_sop (as_list (arg a (S O))))))
+                 else None
 
 (** val cRLF : str **)
 
